@@ -44,6 +44,16 @@ def bootstrap() -> None:
         env = dict(os.environ)
         env["PYTHONHASHSEED"] = "0"
         os.execve(sys.executable, [sys.executable, *sys.argv], env)
+    # a runaway allocation inside the code under test must end as a MemoryError in that worker (reported like any other
+    # unexpected exception), not take the machine down with it
+    try:
+        import resource
+        lim = int(float(os.environ.get("VERIF_MEM_GB", "12")) * 2 ** 30)
+        soft, hard = resource.getrlimit(resource.RLIMIT_AS)
+        if hard == resource.RLIM_INFINITY or lim < hard:
+            resource.setrlimit(resource.RLIMIT_AS, (lim, hard))
+    except (ImportError, ValueError, OSError):
+        pass
     os.environ.setdefault("MPLBACKEND", "Agg")
     os.environ.setdefault("OMP_NUM_THREADS", "1")
     os.environ.setdefault("OPENBLAS_NUM_THREADS", "1")
